@@ -220,6 +220,14 @@ def gen_filter(rng, n, feats):
     return f
 
 
+def acc_for(rng, pairs):
+    """explicit contour accuracy (1/8 units): the range of the finite values
+    divided into 2..40 steps, so that grids stay small"""
+    fin = [k for t, k in pairs if t == 0]
+    span = (max(fin) - min(fin)) if fin else 8
+    return max(1, span // rng.choice([2, 7, 40]))
+
+
 def gen_params(rng, n, feats):
     names = sorted(feats)
     xax, yax = rng.sample(names, 2)
@@ -228,8 +236,8 @@ def gen_params(rng, n, feats):
            inject(rng, gen_values(rng, npos, "spread", rng.random() < .7), .1)]
     return dict(
         xax=xax, yax=yax, pos=pos,
-        acc=rng.choice([None, None, [rng.choice([4, 16, 40]),
-                                     rng.choice([4, 16, 40])]]),
+        acc=rng.choice([None, None, [acc_for(rng, feats[xax]),
+                                     acc_for(rng, feats[yax])]]),
         q=rng.choice([[1, 2], [1, 4], [3, 4], [1, 10], [19, 20], [9, 10],
                       [0, 1], [1, 1], [1, 8]]),
         normalize=rng.random() < .5,
@@ -1255,6 +1263,34 @@ def classify(case, fails):
     return None
 
 
+def retry_dead(run, cases, results):
+    """cases whose worker process died (out-of-memory killer, crash in native
+    code): once more in a fresh pool, then one process per case; a case that
+    kills its own process again is an oracle failure"""
+    todo = [i for i, r in enumerate(results) if r is None]
+    if not todo:
+        return
+    run.count("worker-died-retried", len(todo))
+    with concurrent.futures.ProcessPoolExecutor(
+            max_workers=common.NCPU) as ex:
+        futs = {i: ex.submit(meta_worker, (cases[i], run.scratch))
+                for i in todo}
+        for i, f in futs.items():
+            try:
+                results[i] = f.result()
+            except Exception:
+                results[i] = None
+    for i in [i for i, r in enumerate(results) if r is None]:
+        try:
+            with concurrent.futures.ProcessPoolExecutor(max_workers=1) as ex:
+                results[i] = ex.submit(meta_worker,
+                                       (cases[i], run.scratch)).result()
+        except Exception as e:
+            results[i] = dict(
+                fails=["the process evaluating this case died twice (%s)"
+                       % type(e).__name__], counts={}, nontrivial=False, m=0)
+
+
 def meta_collect(run, cases, results):
     for c, r in zip(cases, results):
         run.record_case(c, r["nontrivial"], sample=False)
@@ -1327,7 +1363,14 @@ def run(run):
             i = adjust_impl(c)
             if i != m:
                 run.mismatch(c, m, i)
-        meta_collect(run, meta_cases, [f.result() for f in futs])
+        results = []
+        for f in futs:
+            try:
+                results.append(f.result())
+            except Exception:       # BrokenProcessPool: a worker died
+                results.append(None)
+    retry_dead(run, meta_cases, results)
+    meta_collect(run, meta_cases, results)
 
     for c, (coq, impl), m in zip(stats_cases, s_impl, s_model):
         run.corr_checked += 1
